@@ -13,6 +13,9 @@ structure St where
   chain : List Blk := []
   epochs : List Epoch := []
   daos : List DaoField := []
+  /-- node stream: hex of the dao field answered by the last `dao` op (what `DaoHeaderVerifier`
+  compares the header with); empty when that op failed -/
+  lastDao : String := ""
 
 def errName : Err → String
   | .overflow => "err-overflow"
@@ -150,7 +153,10 @@ def step (s : St) (ts : List String) : St × String :=
   | ["dao", ser, st, len, base, rem, pn, ar, c, s', u, txs] =>
     match parseNats? [ser, st, len, base, rem, pn, ar, c, s', u], parseTxs? txs with
     | some [ser, st, len, base, rem, pn, ar, c, s', u], some txs =>
-      (s, showDao (daoField ser ⟨st, len, base, rem⟩ pn ⟨ar, c, s', u⟩ txs))
+      let r := daoField ser ⟨st, len, base, rem⟩ pn ⟨ar, c, s', u⟩ txs
+      ({ s with lastDao := match r with
+                           | .ok d => hexOf (pack d)
+                           | .error _ => "" }, showDao r)
     | _, _ => (s, "bad-op")
   -- chain stream
   | ["cfg", cl, far, n, d, ser] =>
@@ -188,9 +194,57 @@ def step (s : St) (ts : List String) : St × String :=
           | some .invalidRewardAmount => "err-amount"
           | none => "err-overflow")
     | _, _ => (s, "bad-op")
+  -- node stream (protocol: harness/n06/src/node_stream.rs)
+  -- scenario lines: they tell the harness what to build; the model only takes the configuration
+  | ["node", cl, far, n, d, ser, elen, gcells] =>
+    match parseNats? [cl, far, n, d, ser, elen, gcells] with
+    | some [cl, far, n, d, ser, _, _] =>
+      ({ win := ⟨cl, far⟩, ratio := ⟨n, d⟩, ser := ser }, "ok")
+    | _ => (s, "bad-op")
+  | ["tx", _, _, _, _] => (s, "ok")
+  | ["ub", _, _, _, _] => (s, "ok")
+  | ["nb", _, _, _, _, _, _] => (s, "ok")
+  | ["restart"] => (s, "ok")
+  -- switch of branch: keep blocks 0 .. n-1 of the abstract chain
+  | ["trunc", n] =>
+    match parseNat? n with
+    | some n =>
+      if n ≤ s.chain.length then
+        ({ s with chain := s.chain.take n, epochs := s.epochs.take n, daos := s.daos.take n }, "ok")
+      else (s, "bad-op")
+    | none => (s, "bad-op")
+  -- `DaoHeaderVerifier`: `dao != header.dao() -> InvalidDAO`, against the last `dao` answer
+  | ["daoverify", hx] =>
+    if s.lastDao.isEmpty then (s, "bad-op")
+    else (s, if hx = s.lastDao then "ok" else "err-dao")
   | _ => (s, "bad-op")
 
-def main (_args : List String) : IO UInt32 :=
-  runLines ({} : St) step
+/-- interactive variant of `runLines` for the node stream: the harness needs the model's answer
+before it submits a block, so every answer is flushed at once -/
+partial def serveLines (init : St) : IO UInt32 := do
+  let stdin ← IO.getStdin
+  let stdout ← IO.getStdout
+  let rec loop (s : St) : IO Unit := do
+    let line ← stdin.getLine
+    if line.isEmpty then return ()
+    let ts := tokens line
+    match ts with
+    | [] => loop s
+    | "case" :: _ =>
+      stdout.putStrLn (line.trimAscii.toString)
+      stdout.flush
+      loop init
+    | _ =>
+      let (s', out) := step s ts
+      stdout.putStrLn out
+      stdout.flush
+      loop s'
+  loop init
+  stdout.flush
+  return 0
+
+def main (args : List String) : IO UInt32 :=
+  if args.contains "node-serve" then serveLines ({} : St)
+  else runLines ({} : St) step
 
 end CkbVerif.Driver.C06
